@@ -277,9 +277,19 @@ class C10(System):
 
     @staticmethod
     def _groups(n):
+        # members deliberately NOT in package order, compositions non-uniform and dyadic, no member twice
         if n == 1: return {'G1': ((0,), (1.0,)), 'G2': ((0,), (1.0,))}
         if n == 2: return {'G1': ((1, 0), (0.25, 0.75)), 'G2': ((0, 1), (0.5, 0.5))}
-        return {'G1': ((n - 1, 0), (0.25, 0.75)), 'G2': ((1, n - 1, 0) if n == 3 else (1, 2, n - 2), (0.5, 0.25, 0.25))}
+        if n == 3: return {'G1': ((2, 0), (0.25, 0.75)), 'G2': ((1, 2, 0), (0.5, 0.25, 0.25))}
+        if n == 4: return {'G1': ((3, 0), (0.25, 0.75)), 'G2': ((2, 1), (0.75, 0.25))}
+        return {'G1': ((n - 1, 0), (0.25, 0.75)), 'G2': ((2, n - 2, 1), (0.5, 0.25, 0.25))}
+
+    @staticmethod
+    def _twin_groups(n):
+        """G1 of the twin package (same IDs, separately compiled): other members / other order than the main package's G1"""
+        if n == 1: return {'G1': ((0,), (1.0,))}
+        if n == 2: return {'G1': ((0, 1), (0.25, 0.75))}
+        return {'G1': ((1, 0), (0.25, 0.75))}
 
     def build(self, config):
         n, phases, basis = config
@@ -297,7 +307,15 @@ class C10(System):
         for p, al in enumerate(aliases):
             for a in al: m.add_alias(p, a)
         for g, (mem, comp) in groups.items(): m.add_group(g, mem, comp)
-        st.cs = make_package(order, aliases, groups)
+        st.broken = None
+        try:
+            st.cs = make_package(order, aliases, groups)
+        except Exception as e:
+            import traceback as _tb
+            fr = [f for f in _tb.extract_tb(e.__traceback__) if 'thermosteam' in f.filename]
+            st.broken = Violation('unexpected-exception', f'building the package (compile / set_alias / define_group with members {groups!r}) raised '
+                                  f'{type(e).__name__}: {e}', match=dict(op='build', exc=type(e).__name__, where=(fr[-1].name if fr else 'outside')))
+            return st
         if basis == 'mass':
             # wt compositions of a group defined by mol: comp*MW normalised (not dyadic) -> use my own evaluation
             for g, (mem, comp) in list(m.groups.items()):
@@ -336,7 +354,32 @@ class C10(System):
         st.ocs = None
         st.info = {}
         st.next_alias = 0
+        # twin package: the SAME IDs in the same order, separately compiled, G1 and the user aliases mean other positions;
+        # built lazily by the first action on 'mi3' (a multi-phase indexer with the same phase set as 'mi')
+        st.tcs = None; st.mi3 = None; st.m3 = None
         return st
+
+    def _twin(self, st):
+        if st.tcs is None:
+            m = st.m; n = m.N
+            m3 = Model(m.order, m.phases, mass=m.mass)
+            al = [['a_' + m.IDs[(p + 1) % n]] for p in range(n)]          # alias of the NEXT chemical
+            for p, names in enumerate(al):
+                for a in names: m3.add_alias(p, a)
+            tg = self._twin_groups(n)
+            for g, (mem, comp) in tg.items(): m3.add_group(g, mem, comp)
+            if m.mass:
+                for g, (mem, comp) in list(m3.groups.items()):
+                    w = comp * np.array([m3.MW[i] for i in mem]); m3.groups[g] = (mem, w / w.sum())
+            st.tcs = make_package(m.order, al, tg)
+            st.mi3 = st.MI.blank(m.phases, st.tcs)
+            for i in range(n):
+                for r in range(len(m.phases)):
+                    w = VALS[(i + 2 * r + 5) % len(VALS)]
+                    m3.D[r, i] = w
+                    if w: st.mi3.data.rows[r].dct[i] = w
+            st.m3 = m3
+        return st.mi3
 
     def _partner(self, st):
         if st.ocs is None:
@@ -470,6 +513,10 @@ class C10(System):
         for k in (s(p0), T(s(p0), s('G1')), T(s(P0), mixk), T(E, a1), T(s(p0), E), T(s(p0), cas_t)) + ((T(s(m.phases[0]), c0), T(E, cas_t)) if wide else ()):
             a.append(('get', 'mi', k))
         a.append(('get', 'mi2', T(s('l'), mixk)))
+        # the twin package (same IDs, G1 / aliases defined differently): same keys as on 'mi'
+        a.append(('get', 'mi3', T(s(p0), s('G1')))); a.append(('get', 'mi3', a1)); a.append(('set', 'mi3', T(s(p0), s('G1')), ('sc', 2.5)))
+        if wide:
+            a.append(('get', 'mi3', s('G1'))); a.append(('get', 'mi3', T(E, a1))); a.append(('get', 'mi3', T(s(P0), mixk)))
         if wide:
             a.append(('get', 'mi2', s('l'))); a.append(('get', 'mi2', T(s(st.m2.phases[-1]), a1)))
         a.append(('set', 'ci', cas_t, ('ar', tuple([0.5, 0.0, 2.0][:nar]))))
@@ -514,6 +561,7 @@ class C10(System):
         for k in (s(p0), T(s(p0), s('G2')), T(s(p0), cas_t), T(E, i0)):
             a.append(('get', 'mi', k))
         a.append(('get', 'mi2', T(s('l'), g2k))); a.append(('get', 'mi2', s('l')))
+        a.append(('get', 'mi3', T(s(p0), s('G1')))); a.append(('get', 'mi3', s('G1')))
         a.append(('set', 'ci', s('G1'), ('sc', 2.5)))
         a.append(('set', 'mi', T(s(p0), g2k), ('sc', 2.5)))
         a.append(('ov', 'mix', 'ci')); a.append(('ov', 'mix', 'mi'))
@@ -558,6 +606,20 @@ class C10(System):
         return self._groups(st.m.N)[g][1]
 
     def step(self, st, a):
+        try:
+            return self._step(st, a)
+        except (Violation, Rejected):
+            raise
+        except Exception as e:
+            # an exception that escapes from library code called by the harness itself (twin / partner / fresh package
+            # construction) is library misbehaviour on a valid input, not a harness error
+            import traceback as _tb
+            fr = [f for f in _tb.extract_tb(e.__traceback__) if 'thermosteam' in f.filename]
+            if not fr: raise
+            raise Violation('unexpected-exception', f'{a!r}: library code called while preparing the operation raised {type(e).__name__}: {e} in {fr[-1].name}',
+                            match=dict(op='prepare', exc=type(e).__name__, where=fr[-1].name))
+
+    def _step(self, st, a):
         m = st.m
         op = a[0]
         st.info = info = dict(op=op, hit=False, evicted=False, wrote_cas=False, changed=False, touched_nonzero=False)
@@ -608,18 +670,19 @@ class C10(System):
         v = a[3] if op == 'set' else None
         key = dec(k)
         if tgt == 'mi2': m = st.m2
-        ix = st.ci if tgt == 'ci' else st.mi if tgt == 'mi' else st.mi2
+        if tgt == 'mi3': self._twin(st); m = st.m3
+        ix = st.ci if tgt == 'ci' else st.mi if tgt == 'mi' else st.mi2 if tgt == 'mi2' else st.mi3
         res = m.resolve('ci' if tgt == 'ci' else 'mi', k)
         form = res[0] if res[0] != 'undefined' else 'undefined-' + res[1]
         c1, c2 = self._caches(st)
         hkey = self._hashable(key)
-        info['hit'] = (hkey in c2) if tgt == 'mi' else (hkey in st.mi2._index_cache) if tgt == 'mi2' else (hkey in c1)
+        info['hit'] = (hkey in c2) if tgt == 'mi' else (hkey in st.mi2._index_cache) if tgt == 'mi2' else (hkey in st.mi3._index_cache) if tgt == 'mi3' else (hkey in c1)
         n1, n2 = len(c1), len(c2)
         first1 = next(iter(c1), None)
         match = dict(op=op, target=tgt, form=form, value=(v[0] if v else None))
         # differential twin on cold caches, only meaningful after a history
         fresh = None
-        if self.layer != 'keys':
+        if self.layer != 'keys' and tgt != 'mi3':
             fcs, fci, fmi = self._fresh(st)
             if tgt == 'mi2':
                 fmi = st.MI.blank(m.phases, fcs)
@@ -723,6 +786,8 @@ class C10(System):
             raise Violation(clause, f'{what}: single-phase data are {a.tolist()!r}, expected {m.d.tolist()!r}', match=dict(match, data='ci'))
         if not np.array_equal(b, m.D):
             raise Violation(clause, f'{what}: multi-phase data are {b.tolist()!r}, expected {m.D.tolist()!r}', match=dict(match, data='mi'))
+        if st.mi3 is not None and not np.array_equal(arr(st.mi3.data), st.m3.D):
+            raise Violation(clause, f'{what}: data of the indexer on the twin package are {arr(st.mi3.data).tolist()!r}, expected {st.m3.D.tolist()!r}', match=dict(match, data='mi3'))
         if not np.array_equal(arr(st.mi2.data), st.m2.D):
             raise Violation(clause, f'{what}: data of the second multi-phase indexer changed', match=dict(match, data='mi2'))
 
@@ -820,6 +885,7 @@ class C10(System):
 
     # ---- state oracle ------------------------------------------------------------------------------------------------------------
     def invariants(self, st):
+        if st.broken is not None: return [st.broken]
         m = st.m
         out = []
         cs = st.cs
@@ -839,7 +905,9 @@ class C10(System):
             elif name not in m.groups:
                 out.append(Violation('name-resolution', f'name table entry {name!r} -> {q!r} is not a group I defined', match=dict(kind='table')))
         for g, (mem, comp) in m.groups.items():
-            if list(cs._index.get(g, ())) != list(mem):
+            # membership only: in which order the library stores the positions is its own business, as long as reads sum the
+            # members and a scalar write pairs every member with its composition entry (transition oracle)
+            if sorted(cs._index.get(g, ())) != sorted(mem):
                 out.append(Violation('name-resolution', f'group {g!r} resolves to {cs._index.get(g)!r}, defined as {mem!r}', match=dict(kind='group')))
         c1, c2 = self._caches(st)
         if len(c1) > 101: out.append(Violation('cache-bound', f'CompiledChemicals._index_cache holds {len(c1)} entries (bound 100)', match=dict(cache='chemicals')))
@@ -854,6 +922,7 @@ class C10(System):
 
     # ---- digest --------------------------------------------------------------------------------------------------------------------
     def canon(self, st):
+        if st.broken is not None: return ('broken', st.config)
         m = st.m
         c1, c2 = self._caches(st)
         oc = None if st.ocs is None else tuple((repr(k), repr(v)) for k, v in st.ocs._index_cache.items())
@@ -862,7 +931,9 @@ class C10(System):
                 fixtures.sparse_digest(st.ci.data), fixtures.sparse_digest(st.mi.data), tuple(st.mi._phases),
                 tuple((repr(k), repr(v)) for k, v in c1.items()),
                 tuple((repr(k), repr(v)) for k, v in c2.items()), oc, st.next_alias,
-                tuple((repr(k), repr(v)) for k, v in st.mi2._index_cache.items()))
+                tuple((repr(k), repr(v)) for k, v in st.mi2._index_cache.items()),
+                None if st.mi3 is None else (fixtures.sparse_digest(st.mi3.data), tuple((repr(k), repr(v)) for k, v in st.mi3._index_cache.items()),
+                                             tuple((repr(k), repr(v)) for k, v in st.tcs._index_cache.items())))
 
     def nontrivial(self, st, a, obs):
         i = st.info
